@@ -1,9 +1,10 @@
 import Infretis.Lemmas.RepexC03Load
 import Infretis.Lemmas.RepexC03AvailSys
+import Infretis.Lemmas.RepexC03Step
 /-!
 # C03 — a busy ensemble, path, engine or work directory is never shared
 
-Property theorems only (helper lemmas: `Infretis/Lemmas/RepexC03{Perm,Core,Treat,Eng,Sys,Init,Load,Avail,AvailSys}.lean`).
+Property theorems only (helper lemmas: `Infretis/Lemmas/RepexC03{Perm,Core,Treat,Eng,Sys,Init,Load,Step,Avail,AvailSys}.lean`).
 Model: `Infretis/Model/Repex.lean` — `REPEX_state` as a state machine and the two loops of
 `scheduler()` as the event system `sysStep` / `run` over explicit outcomes:
 `.start o` (one iteration of `while state.initiate()`), `.initDone` (the closing `initiate()` call),
@@ -287,6 +288,28 @@ example : exSys.s.locks[0]? = some false ∧ exSys.s.locks[1]? = some false
     ∧ sysStep exSys (.start { t := 0, e := 0, coin := true, partner := 1 }) = .ok (exAt 1)
     ∧ (exAt 1).jobs.map (fun j => j.picked.length) = [2] := by decide +kernel
 
+/-- … and in the main loop: if the job submitted by a `step` event holds two ensembles, then each of
+    `[0-]` (slot 0) and `[0+]` (slot 1) was, before the event, either idle or held by the very job
+    whose completion the event processes (`treat_output` released it before the new pick). -/
+theorem zero_swap_step_needs_both_idle (y0 y y' : Sys) (evs : List Ev) (h0 : Init y0)
+    (hr : run y0 evs = .ok y) (k : Nat) (status : Status) (newW : List (List Rat)) (o : PickOutcome)
+    (hs : sysStep y (.step k status newW o) = .ok y') (job' : Job)
+    (hnew : y'.jobs = y.jobs.eraseIdx k ++ [job']) (h2 : job'.picked.length = 2) :
+    ∃ job, y.jobs[k]? = some job ∧ ∀ e, e = 0 ∨ e = 1 →
+      (y.s.locks[e]? = some false ∨ ∃ p ∈ job.picked, slotOf p = e) :=
+  step_two_idle (reach_inv h0 hr) k status newW o hs job' hnew h2
+
+/-- a `step` event that resubmits a zero swap: the completing job is the first zero swap -/
+def exZ : Except Repex.Err Sys :=
+  sysStep (exAt 3) (.step 0 .acc [[1], [1, 1, 0]] { t := 0, e := 0, coin := true, partner := 1 })
+
+example : run exSys (exEvs.take 3) = .ok (exAt 3)
+    ∧ (exZ.toOption.map (fun y' => y'.jobs.map (fun j => j.picked.map (fun p => (p.ens, p.pn)))))
+        = some [[(1, 2)], [(-1, 3), (0, 4)]]
+    ∧ (exAt 3).s.locks = [true, true, true, true]
+    ∧ ((exAt 3).jobs[0]?.map (fun j => j.picked.map slotOf)) = some [0, 1] :=
+  ⟨ex_runs 3 (by decide), by decide +kernel, by decide +kernel, by decide +kernel⟩
+
 /-! ## 5. Worker pins, work directories, engine instances -/
 
 /-- **Pins of jobs in flight are pairwise distinct.** -/
@@ -337,25 +360,24 @@ example : (exAt 5).jobs.map (fun j => j.picked.map (·.engIdx)) = [[[(0, 0)]], [
 
 /-! ## 6. A free engine instance is always found
 
-FULL STATEMENT (not proved in this generality — kept for the record):
+`engine_always_available`: with `min(count_k, workers)` instances of every engine type `k`, as
+`create_engines` builds them (`EngInit.sized`; `count_k` = `countK` = number of ensembles whose engine
+list contains `k`, which is ≤ the number of occurrences `create_engines` counts), every ensemble
+having at least one engine type and all types present in `engine_occ` (`EngInit.engOk`, enforced by
+`check_config`), and all cells free at the start: along every scheduler-shaped history
+`assign_engines` serves every engine type of the picked ensembles, i.e. `prep_md_items` never raises
+in its engine part.
 
-  `engine_always_available`: with `min(count_k, workers)` instances of every engine type `k`
-  (`count_k` = number of occurrences of `k` in `ensemble_engines`, as `create_engines` builds them),
-  along every scheduler-shaped history `assign_engines` serves every requested engine type, i.e.
-  `prep_md_items` never raises in its engine part.
-
-PROVED (`_partial`): the same with the hypothesis `EngInit.sized`: every engine type has at least
-`workers` instances.  In the real set-up this is the case exactly when every engine type is used by at
-least `workers` ensembles (`count_k ≥ workers`) — in particular for the standard configuration with
-one engine type shared by all ensembles (`count = ensembles ≥ workers`).  What is missing for the
-general case is the second half of the counting argument (jobs using type `k` hold pairwise distinct
-ensembles that list `k`, so at most `count_k − 1` other workers can occupy a `k` cell).
+Counting argument: after the worker's own cells are freed every occupied cell of type `k` belongs to
+another worker with a job in flight that uses `k`; such workers are pairwise distinct, `< workers`
+and different from the one being served (≤ `workers − 1` of them), occupy one `k` cell each, and hold
+pairwise distinct ensembles listing `k`, none of which is the ensemble just picked (≤ `count_k − 1`).
 
 "Scheduler-shaped" = what `scheduler()` does: `start` events only, then the closing `initiate()`
-call, then `step` events only.  The restriction is needed: `run` also admits a `start` after a
+call, then `step` events only.  The restriction is needed: `run` also allows a `start` after a
 `step`, which `scheduler()` never produces; a worker that completed without being resubmitted keeps
 its engine cells (they are only freed by the same worker's next `prep_md_items`), so a later `start`
-could find a type with fewer than `workers` instances exhausted.
+could find a type exhausted.
 
 The conclusion is phrased as "the event fails only if one of its non-engine parts fails":
 `pickPart` is `pick_lock()` / `pick()` — the part of `prep_md_items` before `assign_engines`. -/
@@ -363,7 +385,7 @@ The conclusion is phrased as "the event fails only if one of its non-engine part
 /-- **During initiation** (after any number of `start` events): if `initiate()` answers yes and the
     pick succeeds, the whole `start` event succeeds — `assign_engines` found an instance of every
     engine type of the picked ensembles. -/
-theorem engine_always_available_start_partial (y0 y : Sys) (starts : List Ev) (h0 : Init y0)
+theorem engine_always_available_start (y0 y : Sys) (starts : List Ev) (h0 : Init y0)
     (hE : EngInit y0) (hs : ∀ ev ∈ starts, isStart ev = true) (hr : run y0 starts = .ok y)
     (o : PickOutcome) (saved : Nat) (s1 : St) (hgo : initiate y.s = (s1, true))
     (s1' : St) (ps : List Picked) (ds : List Draw) (hpick : pickPart s1 o saved = .ok (s1', ps, ds)) :
@@ -373,7 +395,7 @@ theorem engine_always_available_start_partial (y0 y : Sys) (starts : List Ev) (h
 /-- **In the main loop** (after the starts, the closing `initiate()` and any number of `step`
     events, in any completion order): if `loop()` answers yes, `treat_output` succeeds, the scheduler
     resubmits (`cstep + workers ≤ tsteps`) and the pick succeeds, the whole `step` event succeeds. -/
-theorem engine_always_available_step_partial (y0 y : Sys) (starts steps : List Ev) (h0 : Init y0)
+theorem engine_always_available_step (y0 y : Sys) (starts steps : List Ev) (h0 : Init y0)
     (hE : EngInit y0) (hs : ∀ ev ∈ starts, isStart ev = true) (ht : ∀ ev ∈ steps, isStep ev = true)
     (hr : run y0 (starts ++ .initDone :: steps) = .ok y)
     (k : Nat) (status : Status) (newW : List (List Rat)) (o : PickOutcome) (job : Job)
@@ -408,7 +430,7 @@ theorem ex_engInit : EngInit exSys := by
     | k + 1, i => simp [cell] at hx
   · intro k l hl
     rw [hocc] at hl
-    rw [hw]
+    rw [hw, hens, hn]
     match k with
     | 0 => simp at hl; subst hl; decide
     | k + 1 => simp at hl
@@ -437,5 +459,65 @@ def exStepCheck : Bool :=
 
 example : exEvs.take 3 = exEvs.take 2 ++ .initDone :: [] ∧ run exSys (exEvs.take 3) = .ok (exAt 3)
     ∧ exStepCheck = true := ⟨rfl, ex_runs 3 (by decide), by decide +kernel⟩
+
+/-! a second configuration where `min(count_k, workers) < workers` matters: engine type 0 is used by
+`[0-]` only (one instance), type 1 by `[0+]` and `[1+]` (two instances), two workers -/
+
+def exPaths : List (Nat × List Rat × List Rat) :=
+  [(0, [1], [0,0,0,0]), (1, [1,1,0], [0,0,0,0]), (2, [1,1,0], [0,0,0,0])]
+
+def exBlank2 : St := blank 4 2 10 0 3 0 [[-1], [-1, -1]] [[0], [1], [1]] false []
+
+def exS2 : St :=
+  match loadPaths exBlank2 exPaths with
+  | .ok s => s
+  | .error _ => exBlank2
+
+def exSys2 : Sys := { s := exS2, jobs := [] }
+
+theorem ex_init2 : Init exSys2 :=
+  fresh_start_is_init 4 2 10 0 3 0 [[-1], [-1, -1]] [[0], [1], [1]] false exPaths exS2 (by decide)
+    (by decide) (by decide) (by decide) (by decide +kernel)
+
+theorem ex_engInit2 : EngInit exSys2 := by
+  have hocc : exSys2.s.occ = [[-1], [-1, -1]] := by decide +kernel
+  have hens : exSys2.s.ensEng = [[0], [1], [1]] := by decide +kernel
+  have hn : exSys2.s.n = 4 := by decide +kernel
+  have hw : exSys2.s.workers = 2 := by decide +kernel
+  constructor
+  · intro k i x hx
+    rw [hocc] at hx
+    match k, i with
+    | 0, 0 => simpa [cell] using hx.symm
+    | 0, i + 1 => simp [cell] at hx
+    | 1, 0 => simpa [cell] using hx.symm
+    | 1, 1 => simpa [cell] using hx.symm
+    | 1, i + 2 => simp [cell] at hx
+    | k + 2, i => simp [cell] at hx
+  · intro k l hl
+    rw [hocc] at hl
+    rw [hw, hens, hn]
+    match k with
+    | 0 => simp at hl; subst hl; decide
+    | 1 => simp at hl; subst hl; decide
+    | k + 2 => simp at hl
+  · intro e he
+    rw [hn] at he
+    rw [hens, hocc]
+    match e, he with
+    | 0, _ => exact ⟨by decide, fun k hk => by simp at hk; subst hk; exact ⟨_, rfl⟩⟩
+    | 1, _ => exact ⟨by decide, fun k hk => by simp at hk; subst hk; exact ⟨_, rfl⟩⟩
+    | 2, _ => exact ⟨by decide, fun k hk => by simp at hk; subst hk; exact ⟨_, rfl⟩⟩
+
+def exEvs2 : List Ev :=
+  [ .start { t := 0, e := 0, coin := false }, .start { t := 1, e := 1 }, .initDone,
+    .step 0 .acc [[1]] { t := 0, e := 0, coin := false } ]
+
+example : countK exSys2.s.ensEng exSys2.s.n 0 = 1 ∧ exSys2.s.workers = 2
+    ∧ exEvs2 = [.start { t := 0, e := 0, coin := false }, .start { t := 1, e := 1 }] ++ .initDone ::
+        [.step 0 .acc [[1]] { t := 0, e := 0, coin := false }]
+    ∧ (run exSys2 exEvs2).toBool = true
+    ∧ ((run exSys2 exEvs2).toOption.map (fun y => y.s.occ)) = some [[0], [1, -1]] :=
+  ⟨by decide +kernel, by decide +kernel, rfl, by decide +kernel, by decide +kernel⟩
 
 end Infretis.C03
